@@ -34,6 +34,7 @@ type PlanResult struct {
 	OpDigests  []string              `json:"opDigests"`
 	Violations []Violation           `json:"violations,omitempty"`
 	Segments   map[string][][2]int64 `json:"segments,omitempty"` // group op id -> schedule taken
+	Tainted    bool                  `json:"tainted,omitempty"`
 	Writers    []string              `json:"writers,omitempty"`  // base64 bodies of requests after which the process-wide state fingerprint differed
 	Stats      PlanStats             `json:"stats"`
 	Plan       *Plan                 `json:"plan,omitempty"` // literal plan (with recorded schedules), attached when it violated
@@ -82,6 +83,10 @@ func ExecPlan(w *World, plan *Plan) *PlanResult {
 			op.ID = fmt.Sprintf("op%d", i)
 		}
 		x.execOp(op)
+		if w.tainted {
+			x.out.Tainted = true
+			break // a blocked handler was abandoned: this node is done after this plan
+		}
 	}
 	x.out.Stats.Ticks = w.totalTicks - t0
 	x.out.Stats.Switches = w.totalSwitches - s0
@@ -232,6 +237,9 @@ func (x *planExec) execGroup(op *Op) {
 		x.out.Stats.Faults["interleaved-group"]++
 	}
 	for i, tk := range op.Tasks {
+		if results[i] == nil {
+			results[i] = &OpResult{Kind: tk.Kind, NoResponse: true, Blocked: true, Rec: &ReqRecord{}, TransportNote: "task blocked under the simulated schedule"}
+		}
 		x.finish(tk, results[i])
 	}
 }
@@ -260,6 +268,12 @@ func (x *planExec) finish(op *Op, res *OpResult) {
 	x.out.Stats.Classes[res.Class()]++
 	prop := x.plan.Property
 	method := methodOf(op.BodyBytes())
+	if res.Blocked {
+		x.out.OpDigests = append(x.out.OpDigests, op.ID+"=blocked")
+		x.violate("C20", "handler-blocked", op.ID, "C20|handler-blocked|"+method,
+			"the request was delivered but its handler neither finished nor made a single step for %v: it waits for something that never comes, the request is never answered (%s)", blockWatch, res.TransportNote)
+		return
+	}
 	exhausted := res.Rec != nil && res.Rec.FuelExhausted
 	if exhausted {
 		x.out.OpDigests = append(x.out.OpDigests, op.ID+"=fuel")
